@@ -6,9 +6,9 @@ From Coquelicot Require Import Coquelicot.
 From P Require Import C01_gen C01_model C01_proofs_poly C01_proofs_fejer2.
 Open Scope R_scope.
 
-(* ---- Fejer 2 as coded (series stops at nsum-1): odd degrees and even degrees m with m/2 < nsum-1 only;
-        for EVERY n >= 2 some even degree <= n-1 is wrong; witness n = 3, x^2 (rule 1/2, integral 2/3);
-        n = 2 returns all-zero weights *)
+(* ---- FejerSecond: theorems that hold for the series length read from the source whether it is nsum-1 (pinned code) or
+        nsum (repaired code); the full-strength statement fejer2_exact is in C01_props_fejer2_exact.v, its refutation for the
+        pinned code in C01_refuted_fejer2.v *)
 Theorem fejer2_exact_partial : forall n m, (1 <= n)%nat -> (m <= n - 1)%nat ->
   (Nat.even m = false \/ m / 2 < f2_nsum n - 1)%nat ->
   rsum n (fun k => wts_FejerSecond n k * cheb m (pts_FejerSecond n k)) = cheb_int m.
@@ -20,26 +20,6 @@ Theorem fejer2_exact_poly_partial : forall n f, (1 <= n)%nat ->
   is_RInt f (-1) 1 (rsum n (fun k => wts_FejerSecond n k * f (pts_FejerSecond n k))).
 Proof. exact fejer2_exact_poly_partial_thm. Qed.
 Print Assumptions fejer2_exact_poly_partial.
-
-Theorem fejer2_exact_refuted :
-  exists n d, (2 <= n)%nat /\ (d <= n - 1)%nat /\
-    rsum n (fun k => wts_FejerSecond n k * pts_FejerSecond n k ^ d) <> mono_int d.
-Proof. exact fejer2_exact_refuted_lemma. Qed.
-Print Assumptions fejer2_exact_refuted.
-
-Theorem fejer2_witness_value : rsum 3 (fun k => wts_FejerSecond 3 k * pts_FejerSecond 3 k ^ 2) = 1 / 2.
-Proof. exact fejer2_n3_x2. Qed.
-Print Assumptions fejer2_witness_value.
-
-Theorem fejer2_n2_all_zero : rsum 2 (fun k => wts_FejerSecond 2 k * cheb 0 (pts_FejerSecond 2 k)) = 0.
-Proof. exact fejer2_n2_zero. Qed.
-Print Assumptions fejer2_n2_all_zero.
-
-Theorem fejer2_defect_every_n : forall n, (2 <= n)%nat ->
-  let m := (2 * (f2_nsum n - 1))%nat in
-  (m <= n - 1)%nat /\ rsum n (fun k => wts_FejerSecond n k * cheb m (pts_FejerSecond n k)) <> cheb_int m.
-Proof. exact fejer2_defect_all. Qed.
-Print Assumptions fejer2_defect_every_n.
 
 Theorem fejer2_fixed_exact : forall n f, (1 <= n)%nat -> pspan (n - 1) f ->
   is_RInt f (-1) 1 (rsum n (fun k => wts_FejerSecond_full n k * f (pts_FejerSecond n k))).
